@@ -68,6 +68,48 @@ impl<L: KVVStore> FaultyKVV<L> {
     }
 }
 
+/// A handle to a store shared with the harness (which keeps it to arm faults, dump and copy it)
+pub struct SharedKVV(pub Arc<FaultyKVV<MemoryKVVStore>>);
+
+impl lightning_signer::SendSync for SharedKVV {}
+
+impl KVVStore for SharedKVV {
+    type Iter = <MemoryKVVStore as KVVStore>::Iter;
+    fn put(&self, key: &str, value: Vec<u8>) -> Result<(), lightning_signer::persist::Error> {
+        self.0.put(key, value)
+    }
+    fn put_with_version(&self, key: &str, version: u64, value: Vec<u8>) -> Result<(), lightning_signer::persist::Error> {
+        self.0.put_with_version(key, version, value)
+    }
+    fn put_batch(&self, kvvs: Vec<KVV>) -> Result<(), lightning_signer::persist::Error> {
+        self.0.put_batch(kvvs)
+    }
+    fn get(&self, key: &str) -> Result<Option<(u64, Vec<u8>)>, lightning_signer::persist::Error> {
+        self.0.get(key)
+    }
+    fn get_version(&self, key: &str) -> Result<Option<u64>, lightning_signer::persist::Error> {
+        self.0.get_version(key)
+    }
+    fn get_prefix(&self, prefix: &str) -> Result<Self::Iter, lightning_signer::persist::Error> {
+        self.0.get_prefix(prefix)
+    }
+    fn delete(&self, key: &str) -> Result<(), lightning_signer::persist::Error> {
+        self.0.delete(key)
+    }
+    fn clear_database(&self) -> Result<(), lightning_signer::persist::Error> {
+        self.0.clear_database()
+    }
+    fn reset_versions(&self) -> Result<(), lightning_signer::persist::Error> {
+        self.0.reset_versions()
+    }
+    fn signer_id(&self) -> lightning_signer::persist::SignerId {
+        self.0.signer_id()
+    }
+}
+
+pub type SharedPersister = KVVPersister<SharedKVV, JsonFormat>;
+pub type BackupComposite = vls_persist::backup_persister::BackupPersister<SharedPersister, SharedPersister>;
+
 impl<L: KVVStore> lightning_signer::SendSync for FaultyKVV<L> {}
 
 impl<L: KVVStore> KVVStore for FaultyKVV<L> {
@@ -115,6 +157,8 @@ pub const SIGNER_ID: [u8; 16] = [7u8; 16];
 pub enum Store {
     Mem(Arc<MemPersister>),
     Cloud(Arc<CloudPersister>),
+    /// main + backup composite (vls-persist BackupPersister); the signer restarts from the main store
+    Backup { main: Arc<FaultyKVV<MemoryKVVStore>>, backup: Arc<FaultyKVV<MemoryKVVStore>>, persister: Arc<BackupComposite> },
 }
 
 pub type Dump = Vec<(String, u64, Vec<u8>)>;
@@ -153,14 +197,17 @@ impl Store {
     }
     /// storage faults (in-memory backend only): after `skip` writing calls the next `n` fail
     pub fn arm_faults(&self, skip: u64, n: u64) {
-        if let Store::Mem(p) = self {
-            p.0.arm(skip, n);
+        match self {
+            Store::Mem(p) => p.0.arm(skip, n),
+            Store::Backup { main, .. } => main.arm(skip, n),
+            _ => {}
         }
     }
     /// stop failing; how many writes were failed
     pub fn disarm_faults(&self) -> u64 {
         match self {
             Store::Mem(p) => p.0.disarm(),
+            Store::Backup { main, .. } => main.disarm(),
             _ => 0,
         }
     }
@@ -170,10 +217,45 @@ impl Store {
             JsonFormat,
         )))
     }
+    pub fn new_backup() -> Store {
+        Self::backup_from(MemoryKVVStore::new(SIGNER_ID), MemoryKVVStore::new(SIGNER_ID))
+    }
+    fn backup_from(m: MemoryKVVStore, b: MemoryKVVStore) -> Store {
+        let main = Arc::new(FaultyKVV::new(m));
+        let backup = Arc::new(FaultyKVV::new(b));
+        let persister = Arc::new(BackupComposite::new(
+            KVVPersister(SharedKVV(main.clone()), JsonFormat),
+            KVVPersister(SharedKVV(backup.clone()), JsonFormat),
+        ));
+        Store::Backup { main, backup, persister }
+    }
+    pub fn is_backup(&self) -> bool {
+        matches!(self, Store::Backup { .. })
+    }
+    /// contents of the backup store of a composite
+    pub fn dump_backup(&self) -> Dump {
+        match self {
+            Store::Backup { backup, .. } => backup.get_prefix("").expect("get_prefix").map(|k| (k.0, k.1 .0, k.1 .1)).collect(),
+            _ => vec![],
+        }
+    }
+    /// composite only: the next `n` writes to the BACKUP store fail
+    pub fn arm_backup_faults(&self, n: u64) {
+        if let Store::Backup { backup, .. } = self {
+            backup.arm(0, n);
+        }
+    }
+    pub fn disarm_backup_faults(&self) -> u64 {
+        match self {
+            Store::Backup { backup, .. } => backup.disarm(),
+            _ => 0,
+        }
+    }
     pub fn as_persist(&self) -> Arc<dyn Persist> {
         match self {
             Store::Mem(p) => p.clone(),
             Store::Cloud(p) => p.clone(),
+            Store::Backup { persister, .. } => persister.clone(),
         }
     }
     pub fn is_cloud(&self) -> bool {
@@ -184,6 +266,7 @@ impl Store {
         let it: Vec<KVV> = match self {
             Store::Mem(p) => p.0.get_prefix("").expect("get_prefix").collect(),
             Store::Cloud(p) => p.0.get_prefix("").expect("get_prefix").collect(),
+            Store::Backup { main, .. } => main.get_prefix("").expect("get_prefix").collect(),
         };
         it.into_iter().map(|k| (k.0, k.1 .0, k.1 .1)).collect()
     }
@@ -201,6 +284,14 @@ impl Store {
                 let s = MemoryKVVStore::new(SIGNER_ID);
                 s.put_batch(kvvs).expect("copy");
                 Store::Cloud(Arc::new(KVVPersister(CloudKVVStore::new(s), JsonFormat)))
+            }
+            Store::Backup { .. } => {
+                let m = MemoryKVVStore::new(SIGNER_ID);
+                m.put_batch(kvvs).expect("copy");
+                let b = MemoryKVVStore::new(SIGNER_ID);
+                let bk: Vec<KVV> = self.dump_backup().into_iter().map(|(k, v, vv)| KVV(k, (v, vv))).collect();
+                b.put_batch(bk).expect("copy");
+                Self::backup_from(m, b)
             }
         }
     }
@@ -221,6 +312,8 @@ pub struct WorldCfg {
     pub validator: ValidatorKind,
     pub oracles: Vec<PublicKey>,
     pub cloud: bool,
+    /// main + backup composite store (ignored when `cloud`)
+    pub backup: bool,
     pub start_time: u64,
 }
 
@@ -234,6 +327,7 @@ impl WorldCfg {
             validator: ValidatorKind::Simple,
             oracles: vec![],
             cloud: false,
+            backup: false,
             start_time: 1_700_000_000,
         }
     }
@@ -328,7 +422,7 @@ pub fn build_node_ext(
 
 impl World {
     pub fn new(cfg: WorldCfg) -> World {
-        let store = if cfg.cloud { Store::new_cloud() } else { Store::new_mem() };
+        let store = if cfg.cloud { Store::new_cloud() } else if cfg.backup { Store::new_backup() } else { Store::new_mem() };
         let clock = Arc::new(ManualClock::new(Duration::from_secs(cfg.start_time)));
         let external = Arc::new(std::sync::Mutex::new(External::default()));
         let node = build_node_ext(&cfg, &store, clock.clone(), Some(&external)).expect("new node");
